@@ -71,6 +71,21 @@ Definition spec_comments (first : opid) (ops : list op) : list comment :=
                       then {| c_id := c_id c; c_author := c_author c; c_msg := msg; c_files := files; c_edits := S (c_edits c) |} else c) cs
     | _ => cs end) ops [].
 
+(* actors: authors of the operations that took effect, each once, in order of first appearance; participants: of
+   create / add-comment.  An edit whose target is not a comment takes no effect. *)
+Definition add_once' (a : N) (l : list N) : list N := if existsb (N.eqb a) l then l else l ++ [a].
+Definition spec_actors_parts (first : opid) (ops : list op) : list N * list N :=
+  let '(_, acts, parts) :=
+    fold_left (fun st o =>
+      let '(cids, acts, parts) := st in
+      match o with
+      | OCreate i au _ _ _ => if id_eqb i first then ([i], add_once' au acts, add_once' au parts) else st
+      | OAddComment i au _ _ => (cids ++ [i], add_once' au acts, add_once' au parts)
+      | OEditComment _ au t _ _ => if existsb (fun c => id_eqb c t) cids then (cids, add_once' au acts, parts) else st
+      | OSetTitle _ au _ | OSetStatus _ au _ | OLabelChange _ au _ _ => (cids, add_once' au acts, parts)
+      | _ => st
+      end) ops ([], [], []) in (acts, parts).
+
 (* timeline: one entry per state-changing operation *)
 Definition spec_timeline (first : opid) (ops : list op) : list (bool * N) :=
   flat_map (fun o => match o with
@@ -104,6 +119,7 @@ Definition C10_ok (c : case) : bool :=
     strictly_sorted (b_labels o) && nl_eqb (b_labels o) (spec_labels ops) &&
     list_eqb comment_eqb (b_comments o) (spec_comments first ops) &&
     nodupb (b_actors o) && nodupb (b_parts o) &&
+    nl_eqb (b_actors o) (fst (spec_actors_parts first ops)) && nl_eqb (b_parts o) (snd (spec_actors_parts first ops)) &&
     forallb (fun cm => existsb (N.eqb (c_author cm)) (b_parts o)) (b_comments o) &&
     forallb (fun a => existsb (fun x => N.eqb (op_author x) a) ops) (b_actors o) &&
     forallb (fun a => existsb (N.eqb a) (b_actors o)) (b_parts o) &&
